@@ -687,6 +687,21 @@ class C08(Property):
 
     # ------------------------------------------------------------------ generation
     def cases(self, budget_s):
+        return self.with_twins(self.cases_main(budget_s))
+
+    @staticmethod
+    def with_twins(gen):
+        """A research case whose structure has a non-empty set / frozenset hits the recorded finding
+        C08-research-set-paths, and the runner does not count a model/implementation disagreement on a case that
+        hit a known finding.  So each such case is followed by a twin with `corr_only` set: the oracle skips the
+        entries that are exactly the recorded defect (everything else is judged as usual), the case passes the
+        oracle, and its correspondence counts."""
+        for c in gen:
+            yield c
+            if c['mode'] == 'Q' and any(kd in 'sf' and items for kd, items in c['nodes']):
+                yield dict(c, corr_only=1)
+
+    def cases_main(self, budget_s):
         rng = self.rng
         # small, diverse, adversarial families first (a slow machine cut by the budget never loses them)
         for c in self.round2_families():
@@ -709,6 +724,9 @@ class C08(Property):
             yield self.random_case(rng, big=(i % 7 == 0))
 
     def deep_cases(self, budget_s):
+        return self.with_twins(self.deep_main(budget_s))
+
+    def deep_main(self, budget_s):
         rng = self.rng
         for c in self.adversarial(rng, 300):
             yield c
@@ -1083,9 +1101,32 @@ class C08(Property):
         r, nodes, is_tree = walk(root)
         prog = case['prog']
         tree = 1 if (is_tree and is_ref(r) and not (case['reraise'] and has_act(prog, 'raise'))) else 0
-        toks = [case['mode'], str(case['reraise']), str(tree), prog_tok(prog), 'R' + obj_tok(r)]
+        mode = case['mode']
+        if mode == 'Q' and not self.research_queries_root():
+            mode = 'Qn'
+        toks = [mode, str(case['reraise']), str(tree), prog_tok(prog), 'R' + obj_tok(r)]
         toks += [node_tok(nd) for nd in nodes]
         return ' '.join(toks)
+
+    def research_queries_root(self):
+        """Does research() hand the root object itself to the query (and report it under the path (None,))?
+        The statement speaks about nested items only, so either convention is fine: it is read off the
+        implementation once per run and handed to the model (mode token Q / Qn); the theorems hold for both."""
+        r = self.__dict__.get('_rootq')
+        if r is None:
+            r = True
+            try:
+                from boltons.iterutils import research
+                seen = []
+                probe = [[], {'a': ()}]
+                with time_limit(2):
+                    research(probe, query=lambda p, k, v: seen.append(v) or False)
+                r = any(v is probe for v in seen)
+            except BaseException:
+                r = True
+            self._rootq = r
+            self.stats['research_queries_root'] = int(r)
+        return r
 
     def tree_flag(self, case):
         ln = self.line(case)
@@ -1136,7 +1177,7 @@ class C08(Property):
             return '!' + o['exc']
         if 'res' in o:
             return o['res']
-        return ';'.join('%s>%s:%s' % (p, s, st) for p, s, st, _ in o.get('entries', [])) or '-'
+        return ';'.join('%s>%s:%s' % (p, s, st) for p, s, st, _ in o.get('entries', []) if st != 'root') or '-'
 
     def one_call(self, mode, root, in_containers, prog, default, reraise, hits, light=False):
         """one remap / research(+get_path) call on the real code -> observation (CaseTimeout passes through)"""
@@ -1180,8 +1221,17 @@ class C08(Property):
                             raise
                         except Exception as e:
                             status = 'exc:' + exc_name(e)
+                        # get_path(root, path, default): the default replaces the PathAccessError, nothing else
+                        try:
+                            d = get_path(root, path, default=ROOT)
+                            if (status == 'err') != (d is ROOT) or (status == 'ok' and d is not g):
+                                status = 'dflt:' + status
+                        except CaseTimeout:
+                            raise
+                        except Exception as e:
+                            status = 'dflt-exc:' + exc_name(e)
                     entries.append(['/'.join(key_s(a) for a in path), shallow, status,
-                                    1 if self.path_hits_set(root, path) else 0])
+                                    self.set_path_kind(root, path, value)])
                 obs['entries'] = entries
         except CaseTimeout:
             raise
@@ -1190,20 +1240,32 @@ class C08(Property):
         return obs
 
     @staticmethod
-    def path_hits_set(root, path):
-        """does following `path` index into a set / frozenset (the parent of some segment is one)?"""
+    def set_path_kind(root, path, value):
+        """0: following `path` never indexes into a set / frozenset.  1: it does, and reading each such
+        segment as the member's enumerate() index (what default_enter hands out as its key) leads to exactly the
+        reported value - the recorded defect C08-research-set-paths and nothing else.  2: it does, but the path
+        does not lead to the reported value even under that reading (some other defect)."""
         cur = root
+        hit = 0
         for seg in path:
             kd = kind_of(cur)
-            if kd in ('s', 'f'):
-                return True
             if kd is None:
-                return False
+                return 2 if hit else 0
             try:
-                cur = cur[seg]
+                if kd in ('s', 'f'):
+                    hit = 1
+                    if type(seg) is not int or not 0 <= seg < len(cur):
+                        return 2
+                    cur = list(cur)[seg]
+                else:
+                    cur = cur[seg]
             except Exception:
-                return False
-        return False
+                return 2 if hit else 0
+        if not hit:
+            return 0
+        same = cur is value or (is_atom(cur) and is_atom(value) and type(cur) is type(value) and cur == value) \
+            or (kind_of(cur) in ('t', 'f') and kind_of(cur) == kind_of(value) and len(cur) == 0 and len(value) == 0)
+        return 1 if same else 2
 
     def render(self, case, obs):
         tree = self.tree_flag(case)
@@ -1219,7 +1281,8 @@ class C08(Property):
             h = obs['res']
             t = obs['plain'] if tree else '-'
             return 'H=%s M=%s T=%s R=%s' % (h, h, t, t)
-        ents = ';'.join('%s>%s:%s' % (p, s, st) for p, s, st, _ in obs['entries']) or '-'
+        # the root's own entry ((None,), root) - reported or not - is not something the statement constrains
+        ents = ';'.join('%s>%s:%s' % (p, s, st) for p, s, st, _ in obs['entries'] if st != 'root') or '-'
         return 'H=%s T=%s R=%s' % (ents, ents if tree else '-', ents if tree else '-')
 
     # ------------------------------------------------------------------ oracle (independent of the model)
@@ -1316,14 +1379,22 @@ class C08(Property):
             if raising and obs['exc'] in raise_names(prog):
                 return None
             return Failure('raises', 'research raised %s' % obs['exc'])
+        set_fail = None
         for p, s, st, into_set in obs['entries']:
             if st in ('root', 'ok'):
+                continue      # 'root': the root itself under (None,) is not a nested item - reported or not
+            if into_set == 1 and st == 'err':
+                # exactly the recorded defect: the path names a set member by its enumerate() index, the reported
+                # value IS that member, and get_path raises PathAccessError.  Any other failing entry of the same
+                # call takes precedence (it is a different defect).
+                if set_fail is None and not case.get('corr_only'):
+                    set_fail = Failure('research_set_path', 'research reported path %s (value %s) but get_path '
+                                       'cannot follow it into a set/frozenset (%s)' % (p, s, st))
                 continue
-            if into_set:
-                return Failure('research_set_path', 'research reported path %s (value %s) but get_path cannot follow '
-                               'it into a set/frozenset (%s)' % (p, s, st))
-            return Failure('research_path', 'research reported path %s (value %s) but get_path gives %s' % (p, s, st))
-        return None
+            return Failure('research_path', 'research reported path %s (value %s) but get_path gives %s%s'
+                           % (p, s, st, ' (the path leads into a set/frozenset, but not to that value even when a '
+                                        'segment is read as the member\'s enumeration index)' if into_set == 2 else ''))
+        return set_fail
 
     @staticmethod
     def swallowing(fn):
@@ -1355,13 +1426,16 @@ class C08(Property):
     # ------------------------------------------------------------------ known findings
     def finding_research_set_path(self, case, failure):
         """research reports enumeration indices for set / frozenset members; get_path cannot index a set"""
-        return failure.tag == 'research_set_path' and case['mode'] == 'Q' and \
-            getattr(failure, 'model_agrees', None) is not False
+        # keyed on the defect itself (the oracle tags a failing entry `research_set_path` only when the path names
+        # a set member by its enumeration index, the reported value is that member and get_path raises
+        # PathAccessError) - not on whether the rest of the call still looks like the model
+        return failure.tag == 'research_set_path' and case['mode'] == 'Q'
 
     def finding_tuple_cycle_backref(self, case, failure):
         """a cycle that passes through a tuple: the back reference is rebuilt as ()"""
-        return failure.tag == 'tuple_cycle_backref' and case['mode'] == 'M' and \
-            getattr(failure, 'model_agrees', None) is not False
+        # keyed on the defect itself: default callbacks, cyclic input, and the FIRST difference between input and
+        # output is an empty tuple standing where the input refers back to a tuple still being traversed
+        return failure.tag == 'tuple_cycle_backref' and case['mode'] == 'M' and keeps_everything(case['prog'])
 
     # ------------------------------------------------------------------ shrinking
     def shrink(self, case):
